@@ -157,6 +157,11 @@ fn build(a: &[&str]) -> Result<(), String> {
 // ---- reference for record text.  Some(Some(w)): grammatical, wire w.  Some(None): certainly outside the grammar.  None: no opinion.
 fn ref_text(s: &str) -> Option<Option<Vec<u8>>> {
     let toks: Vec<&str> = s.split(|c| c == ' ' || c == '\t').filter(|t| !t.is_empty()).collect();
+    // TXT: `"` then one or more of { \DDD with DDD <= 255 | a byte 32..=127 other than `\` and `"` } then `"`, optional blanks, end of text
+    if toks.len() >= 5 && toks[3].eq_ignore_ascii_case("TXT") && !toks[..4].iter().any(|t| t.contains('"') || t.contains('\\'))
+        && !s.starts_with(' ') && !s.starts_with('\t') && !s.bytes().any(|c| c == b'\n' || c == b'\r' || c == 0) {
+        return ref_txt(s, &toks);
+    }
     if s.bytes().any(|c| c == b'\n' || c == b'\r' || c == b'"' || c == b'\\' || c >= 128 || c < 9 || (c > 9 && c < 32)) { return None; }
     if toks.len() < 4 { return Some(None); }
     let owner = toks[0];
@@ -211,6 +216,42 @@ fn ref_text(s: &str) -> Option<Option<Vec<u8>>> {
                  wire(43, Some(rd)) }
         _ => None,
     }
+}
+
+fn ref_txt(s: &str, toks: &[&str]) -> Option<Option<Vec<u8>>> {
+    // the prefix `owner ttl IN TXT` is judged by the general reference on a stand-in record with the same prefix
+    let stand_in = format!("{} {} {} A 1.2.3.4", toks[0], toks[1], toks[2]);
+    let head = match ref_text(&stand_in) { Some(Some(w)) => w, Some(None) => return Some(None), None => return None };
+    // position right after the 4th token
+    let b = s.as_bytes();
+    let mut i = 0; let mut seen = 0;
+    while i < b.len() && seen < 4 { while i < b.len() && (b[i] == b' ' || b[i] == b'\t') { i += 1; } while i < b.len() && b[i] != b' ' && b[i] != b'\t' { i += 1; } seen += 1; }
+    while i < b.len() && (b[i] == b' ' || b[i] == b'\t') { i += 1; }
+    if i >= b.len() || b[i] != b'"' { return Some(None); }
+    i += 1;
+    let mut txt: Vec<u8> = vec![];
+    let mut n = 0;
+    loop {
+        if i >= b.len() { return Some(None); }
+        let c = b[i];
+        if c == b'"' { i += 1; break; }
+        if c == b'\\' {
+            if i + 3 >= b.len() || !b[i + 1].is_ascii_digit() || !b[i + 2].is_ascii_digit() || !b[i + 3].is_ascii_digit() { return Some(None); }
+            let v = (b[i + 1] - 48) as u32 * 100 + (b[i + 2] - 48) as u32 * 10 + (b[i + 3] - 48) as u32;
+            if v > 255 { return Some(None); }
+            txt.push(v as u8); i += 4;
+        } else if c > 31 && c < 128 { txt.push(c); i += 1; } else { return Some(None); }
+        n += 1;
+    }
+    if n == 0 { return Some(None); }
+    while i < b.len() && (b[i] == b' ' || b[i] == b'\t') { i += 1; }
+    if i != b.len() { return Some(None); }
+    if txt.len() > (4096 - 12 - 1 - 10) / 256 * 255 { return Some(None); }
+    let mut rd = vec![]; for ch in txt.chunks(255) { rd.push(ch.len() as u8); rd.extend_from_slice(ch); }
+    // head = owner | type A | class | ttl | rdlen 4 | 1.2.3.4  ->  replace type, rdlen and data
+    let ne = head.len() - 14;
+    let mut w = head[..ne].to_vec(); put16(&mut w, 16); w.extend_from_slice(&head[ne + 2..ne + 8]); put16(&mut w, rd.len() as u16); w.extend(rd);
+    Some(Some(w))
 }
 
 const LAB: &[u8] = b"abcXYZ019-_";
@@ -276,7 +317,11 @@ pub fn gen(prop: &str, r: &mut Rng) -> Vec<String> {
             let kw = |r: &mut Rng, s: &str| -> String { s.chars().map(|c| if r.chance(1, 2) { c.to_ascii_lowercase() } else { c }).collect() };
             // numbers: half of the time a value at or next to the limit of the field (max = largest value the field holds)
             let num = |r: &mut Rng, max: u64| -> u64 { if r.chance(1, 2) { *r.pick(&[0, 1, max / 2, max - 1, max, max + 1, max * 2 + 1]) } else { r.below(max + max / 16 + 2) } };
-            let body = match r.below(9) {
+            let body = match r.below(10) {
+                9 => { // TXT with a few escapes: valid (\\000, \\065, \\255), out of range (\\256, \\300, \\999), too short (\\25), escaped quote
+                       let k = 1 + r.below(4) as usize;
+                       let inner: String = (0..k).map(|_| *r.pick(&["a", "bc", " ", "\\000", "\\065", "\\255", "\\256", "\\300", "\\999", "\\25", "\\\"", "7", "\\2555"])).collect();
+                       format!("{}{}\"{}\"", kw(r, "TXT"), ws(r), inner) }
                 0 => format!("{}{}{}", kw(r, "A"), ws(r), (0..4).map(|_| num(r, 255).to_string()).collect::<Vec<_>>().join(".")),
                 1 => format!("{}{}{:x}:{:x}::{:x}", kw(r, "AAAA"), ws(r), r.next() as u16, r.next() as u16, r.next() as u16),
                 2 => { let k = *r.pick(&["NS", "CNAME", "PTR"]); format!("{}{}{}", kw(r, k), ws(r), hn(r)) }
